@@ -210,3 +210,8 @@ package data
 //@   loop 1:
 //@     invariant 0 <= i && i <= sampCount && sampCount == (len(payload) - 44)/4 && len(payload) >= 44
 //@     decreases sampCount - i
+
+//@ func BoolToFloat
+//@   props C13
+//@   local v bool#1
+//@   ensures [C13] (v ==> result == 1.0) && (!v ==> result == 0.0)
